@@ -290,6 +290,9 @@ pub fn c15(tier: Tier) -> i32 {
         ("no-slots-left", TowerCfg { slots: 1, duration: 400, grace: 6, txindex: false }, vec![Ev::Register(1), add(1, 2, Blob::Valid)], false),
         ("already-triggered", base_cfg, vec![Ev::Register(1), add(1, 2, Blob::Valid), add(1, 1, Blob::Valid), Ev::MineP(MineSel::Txs(vec![TxName::D(1)]))], false),
         ("bitcoind-unreachable", base_cfg, vec![Ev::Register(1), add(1, 2, Blob::Valid)], true),
+        // the registering user already holds the maximum number of slots: a renewal must be refused
+        // (resource exhausted) and change nothing
+        ("slots-at-cap", TowerCfg { slots: u32::MAX, duration: 400, grace: 6, txindex: false }, vec![Ev::Register(1), Ev::Register(2), add(1, 2, Blob::Valid)], false),
     ];
     let mut evals = 0u64;
     let mut distinct: BTreeSet<String> = BTreeSet::new();
@@ -317,6 +320,7 @@ pub fn c15(tier: Tier) -> i32 {
                     ("unregistered", "/register") | ("expired", "/register") | ("no-slots-left", "/register") | ("already-triggered", "/register") => true,
                     ("no-slots-left", "/get_appointment") | ("no-slots-left", "/get_subscription_info") => true,
                     ("already-triggered", "/get_appointment") | ("already-triggered", "/get_subscription_info") => true,
+                    ("slots-at-cap", "/add_appointment") | ("slots-at-cap", "/get_appointment") | ("slots-at-cap", "/get_subscription_info") => true,
                     _ => false,
                 };
                 if !expect_ok {
@@ -347,7 +351,7 @@ pub fn c15(tier: Tier) -> i32 {
     run.set("distinct_reply_kinds", json!(outcomes.len()));
     run.set("exhaustive", json!(true));
     run.set("samples", json!(samples));
-    run.set("rule", json!("finite grid, fully enumerated, through the real warp router + tonic server + tower on loopback: every single-field mutation (drop/null/number/array/object/empty/bool/odd hex/non-hex/one byte short/long/unicode/duplicated key; number boundaries for to_self_delay) of the valid body of each endpoint (thorough: all pairs), correctly signed blobs of 10 lengths, JSON nesting depths, raw strings, single bytes, bodies padded around each endpoint's size limit, missing content-length / content-type, 6 methods x 9 paths, and the valid requests in six lifecycle states (registered, unregistered, expired, no slots, already triggered, bitcoind unreachable). Oracle: 200 + documented fields for valid requests; otherwise 4xx/503, a JSON {error, error_code} with a documented code whenever endpoint, method and size were acceptable, answer within 2 s, tower state unchanged for every non-200. distinct = distinct (method, path, body)"));
+    run.set("rule", json!("finite grid, fully enumerated, through the real warp router + tonic server + tower on loopback: every single-field mutation (drop/null/number/array/object/empty/bool/odd hex/non-hex/one byte short/long/unicode/duplicated key; number boundaries for to_self_delay) of the valid body of each endpoint (thorough: all pairs), correctly signed blobs of 10 lengths, JSON nesting depths, raw strings, single bytes, bodies padded around each endpoint's size limit, missing content-length / content-type, 6 methods x 9 paths, and the valid requests in seven lifecycle states (registered, unregistered, expired, no slots, already triggered, bitcoind unreachable, slots at the u32 cap). Oracle: 200 + documented fields for valid requests; otherwise 4xx/503, a JSON {error, error_code} with a documented code whenever endpoint, method and size were acceptable, answer within 2 s, tower state unchanged for every non-200. distinct = distinct (method, path, body)"));
     run.assume("requests are sent one at a time (concurrency is C10/C11's subject)");
     run.finish()
 }
